@@ -47,7 +47,11 @@ RULE_ADDED = (
               'Round 16: repairs through the bootloader with exactly two PIN retries left. '
               ' '
               'Round 17: minutes to a day of silence between two failed reconnections of one ou'
-              'tage. ')
+              'tage. '
+              ' '
+              'Round 20: the re-opened device refuses one of the bring-up exchanges of a repair'
+              " with an error status of the firmware's own range: device error, and the next re"
+              'quest repairs. ')
 RULE = RULE + " " + RULE_ADDED.strip()
 ASSUMPTIONS = [
     "fault kinds are those of the HID transport (write() < 0, read error, time-out) as the "
@@ -148,6 +152,16 @@ def run_shard(spec, acc):
                                 variants.append("double:%d:%s" % (
                                     rng.randrange(0, 4),
                                     rng.choice(["write_error", "read_error", "timeout"])))
+                            if thorough or rng.random() < 0.25:
+                                # ... or the re-opened device answers one of the bring-up's
+                                # exchanges with an error status of the firmware's own range
+                                # (0x69A0..0x6BFF, 0x6D00): the connection was not
+                                # re-established - device error, and the next request repairs.
+                                # (Other status words at these exchanges are C04's matter.)
+                                variants.append("double:%d:sw%04x" % (
+                                    rng.randrange(0, 4),
+                                    rng.choice([0x6B01, 0x6A99, 0x6D00, 0x6A8F, 0x6B0C,
+                                                0x69A0, 0x6BFF])))
                             for var in variants:
                                 run_case(acc, {"v1": v1, "shape": shape.name, "k": k,
                                                "kind": kind, "fu": fu.name, "j": j,
@@ -467,6 +481,9 @@ def run_case_(acc, c, roles=None):
         if c["variant"].startswith("double"):
             _, m, dk = c["variant"].split(":")
             plan = {int(m): Fault(dk)}
+            if dk.startswith("sw"):
+                plan = {int(m): Fault("sw", sw=int(dk[2:], 16))}
+                acc.count("status_words_inside_the_bring_up_of_a_repair")
         if c["variant"].startswith("rebootlate"):
             # the repair goes through the bootloader (unlock, open the signer, reconnect);
             # one of the last three bring-up exchanges (mode, version, parameters - after
